@@ -1,30 +1,46 @@
 #!/usr/bin/env python3
-"""neutralcheck.py <dir-with-patch.diff> [...]: applies a behaviour-preserving refactoring to a scratch worktree of /repo
-and runs all 19 quick checks against it (GRIBILINT_REPO); prints every alarm. Nothing is stored in /repo."""
-import json, os, shutil, subprocess, sys
+"""neutralcheck.py <dir-with-patch.diff> [...]: applies each behaviour-preserving refactoring to a scratch worktree of
+/repo's HEAD and runs all 19 quick checks against it (GRIBILINT_REPO); prints every alarm. Eight workers, each with its
+own worktree; nothing is stored in /repo. Use absolute paths."""
+import os, shutil, subprocess, sys
+from concurrent.futures import ThreadPoolExecutor
 env = dict(os.environ, PATH="/opt/veriftools/go1.26.8/bin:" + os.environ["PATH"], GOTOOLCHAIN="local", GOFLAGS="-mod=mod", GOPROXY="off", GOSUMDB="off")
-wt = "/tmp/ncheck_wt"
-subprocess.run(["git", "-C", "/repo", "worktree", "remove", "--force", wt], capture_output=True)
-subprocess.check_call(["git", "-C", "/repo", "worktree", "add", "--detach", "-q", wt, "HEAD"])
-tmpv = "/tmp/ncheck_verif"
-try:
-    for src in sys.argv[1:]:
-        subprocess.check_call(["git", "-C", wt, "checkout", "-q", "--", "."])
-        r = subprocess.run(["git", "-C", wt, "apply", os.path.join(src, "patch.diff")], capture_output=True, text=True)
-        if r.returncode != 0:
-            print("NEUTRAL", src, "patch does not apply:", r.stderr[:200]); continue
-        shutil.rmtree(tmpv, ignore_errors=True); os.makedirs(tmpv)
-        shutil.copy("/verif/known_findings.json", tmpv)
-        e2 = dict(env, GRIBILINT_VERIF=tmpv, GRIBILINT_REPO=wt)
-        alarms = {}
-        for p in [f"C{i:02d}" for i in range(1, 20)]:
-            r = subprocess.run([os.environ.get("GRIBILINT_BIN", "/verif/bin/gribilint"), p, "quick"], env=e2, capture_output=True, text=True)
-            if r.returncode != 0:
-                lines = [l for l in r.stdout.splitlines() if " VIOLATED " in l or " UNDECIDED " in l or " VANISHED " in l]
-                alarms[p] = [l[:400] for l in lines[:4]] or [(r.stderr or r.stdout)[-400:]]
-        print("NEUTRAL", src, "silent" if not alarms else "ALARMS " + " ".join(sorted(alarms)))
-        for p, ls in alarms.items():
-            for l in ls: print("    ", l)
-finally:
-    shutil.rmtree(tmpv, ignore_errors=True)
+BIN = os.environ.get("GRIBILINT_BIN", "/verif/bin/gribilint")
+srcs = [os.path.abspath(a) for a in sys.argv[1:]]
+NW = min(8, max(1, len(srcs)))
+def worker(k):
+    wt, tmpv = f"/tmp/ncheck_wt_{k}", f"/tmp/ncheck_verif_{k}"
     subprocess.run(["git", "-C", "/repo", "worktree", "remove", "--force", wt], capture_output=True)
+    shutil.rmtree(wt, ignore_errors=True)
+    subprocess.check_call(["git", "-C", "/repo", "worktree", "add", "--detach", "-q", wt, "HEAD"])
+    out = []
+    try:
+        for src in srcs[k::NW]:
+            subprocess.check_call(["git", "-C", wt, "checkout", "-q", "--", "."])
+            subprocess.check_call(["git", "-C", wt, "clean", "-fdq"])
+            r = subprocess.run(["git", "-C", wt, "apply", os.path.join(src, "patch.diff")], capture_output=True, text=True)
+            if r.returncode != 0:
+                out.append((src, "NEUTRAL %s patch does not apply: %s" % (src, r.stderr[:200]))); continue
+            shutil.rmtree(tmpv, ignore_errors=True); os.makedirs(tmpv)
+            shutil.copy("/verif/known_findings.json", tmpv)
+            e2 = dict(env, GRIBILINT_VERIF=tmpv, GRIBILINT_REPO=wt)
+            alarms = {}
+            for p in [f"C{i:02d}" for i in range(1, 20)]:
+                r = subprocess.run([BIN, p, "quick"], env=e2, capture_output=True, text=True)
+                if r.returncode != 0:
+                    lines = [l for l in r.stdout.splitlines() if " VIOLATED " in l or " UNDECIDED " in l or " VANISHED " in l]
+                    alarms[p] = [l[:400] for l in lines[:4]] or [(r.stderr or r.stdout)[-400:]]
+            txt = "NEUTRAL %s %s" % (src, "silent" if not alarms else "ALARMS " + " ".join(sorted(alarms)))
+            for p, ls in alarms.items():
+                for l in ls: txt += "\n     " + l
+            out.append((src, txt))
+    finally:
+        shutil.rmtree(tmpv, ignore_errors=True)
+        subprocess.run(["git", "-C", "/repo", "worktree", "remove", "--force", wt], capture_output=True)
+        shutil.rmtree(wt, ignore_errors=True)
+    return out
+res = []
+with ThreadPoolExecutor(NW) as ex:
+    for rr in ex.map(worker, range(NW)):
+        res += rr
+for _, t in sorted(res): print(t)
